@@ -204,16 +204,18 @@ class Select(BasePoller):
             # OK, I really don't know what's going on.  Blow up.
             raise
 
-        for sock in w:
-            if self.isWriting(sock):
-                self.fire(_write(sock), self.getTarget(sock))
-
+        # (input first, like Poll and EPoll: a write handler that closes the
+        # socket must not overtake the data that has arrived for it)
         for sock in r:
             if sock == self._ctrl_recv:
                 self._read_ctrl()
                 continue
             if self.isReading(sock):
                 self.fire(_read(sock), self.getTarget(sock))
+
+        for sock in w:
+            if self.isWriting(sock):
+                self.fire(_write(sock), self.getTarget(sock))
         return None
 
 
